@@ -885,6 +885,22 @@ CHECKS['C01']['text'] = CHECKS['C01']['text'].replace('24 theorems.', '25 theore
     '(incl. x / x with one object) and one-term lincombs on inf / nan / signed zeros with NumPy\'s entry-wise result (open finding '
     'C01-F3: below 100 entries c * x, -x, x / c, assign turn inf into nan). Integer dtypes are claimed with integer scalars')
 
+CHECKS['C18']['text'] = CHECKS['C18']['text'].replace('38 theorems', '40 theorems').replace(
+    'pyfftw_planning_guards_cover_both_arrays', 'pyfftw_planning_guards_cover_both_arrays, pyfftw_executed_plan_matches_call / '
+    'pyfftw_executed_plan_old_mismatch (Boolean facts about the guard that a cached FFTW plan is executed only with the aliasing it '
+    'was planned for; /repo fix 5b6c0e9)')
+CHECKS['C18']['note'] = CHECKS['C18']['note'] + (
+    ' Operator streams use lengths <= 9, plus a size stratum (1-d 100, 128, 400, 1000; 2-d (65, 33), (30, 100)) and a call-history '
+    'stratum per operator instance; both are oracle-only (numpy.fft or a fresh operator, no model values at those sizes).')
+CHECKS['C12']['note'] = CHECKS['C12']['note'] + (
+    ' Default-step streams include a call-history stratum (adversarial op.norm(estimate=...) calls on the same operator before the '
+    'solver; steps must equal those for a freshly built equal operator). Open finding F21: power_method_opnorm can stop early at the '
+    'second singular value, making the default pdhg / Landweber steps inadmissible for the true norm.')
+CHECKS['C04']['note'] = CHECKS['C04']['note'] + (
+    ' Ownership and history strata: user vectors overwritten / used as out after the expression was built, every object evaluated '
+    'in both conventions twice, user-supplied temporaries, one operator object occurring several times (oracle-only protocol '
+    'stream). Fixed: C04-F4 (ae56df3: A + v and f * v store a copy of the user vector).')
+
 NOT_YET = {}
 
 
